@@ -54,12 +54,17 @@ SelGap(ts, i) == IF i = 1 THEN "free"
 IsClassName(ts, i) == i > 1 /\ ts[i].k = "ident" /\ ~ts[i].w /\ ts[i - 1].k = "delim" /\ ts[i - 1].v = "."
 
 RECURSIVE SelToks(_, _, _, _), ValToks(_, _, _, _)
+IsMath(t) == t.k = "func" /\ t.v \in {"calc", "CALC", "Calc", "min", "max", "clamp", "MIN", "Clamp"}
 
 (* depth 0 = the prelude of a qualified rule itself; dimensions there are copied, inside blocks rpx converts *)
 SelTok(ts, i, o, depth) ==
     LET t == ts[i]  g == SelGap(ts, i) IN
-    CASE IsBlock(t) ->
+    CASE IsBlock(t) /\ ~IsMath(t) ->
             <<Out(Opener(t), g, t.id)>> \o SelToks(t.a, 1, o, depth + 1) \o <<Out(Closer(t), "free", t.id)>>
+      (* a math function inside a prelude block (`@media (min-width: calc(100px + 2em))`, the supports() / media conditions of
+         an import) is a calculation there too: + and - keep the white space on both sides *)
+      [] IsBlock(t) /\ IsMath(t) ->
+            <<Out(Opener(t), g, t.id)>> \o ValToks(t.a, 1, o, TRUE) \o <<Out(Closer(t), "free", t.id)>>
       [] IsClassName(ts, i) ->
             (IF o.sign # "none" THEN <<Out([k |-> "comment", v |-> o.sign], "forbid", t.id)>> ELSE <<>>)
             \o <<IF o.prefix # "none"
